@@ -122,7 +122,9 @@ CHECKS = {
         note="Trusted: Lean kernel for the enumerator/decider theorems (no axioms beyond propext, Quot.sound); pm4py, "
              "pandas and the janus-free import path exercised as they are.",
         technique="Lean 4 kernel-checked enumeration of the finite domain + proved deciders; exhaustive execution of the real "
-                  "function over the domain under several hash seeds (explicit-state checking, not a proof of the code)",
+                  "function over the domain under several hash seeds (explicit-state checking of the miner); Lean 4 proof "
+                  "that the repository's own post-processing (model tied to the code on the real raw trees) is sound "
+                  "relative to the miner (post_process_sound, post_process_admits)",
     ),
     "C07": dict(
         category="proof",
